@@ -169,6 +169,15 @@ def _caps_if(i: ast.If) -> bool:
     return len(i.body) == 1 and isinstance(i.body[0], ast.Assign) and atom_name(i.body[0].targets[0]) == v and isinstance(i.body[0].value, ast.Call) and attr_path(i.body[0].value.func) == f"{v}.upper" and not i.orelse
 
 
+def _value_key_attr(vk):
+    fn = vk.node
+    if isinstance(fn, ast.FunctionDef) and fn.args.args:
+        rets = [r for r in walk(fn) if isinstance(r, ast.Return)]
+        if len(rets) == 1 and isinstance(rets[0].value, ast.Attribute) and atom_name(rets[0].value.value) == fn.args.args[0].arg:
+            return rets[0].value.attr
+    return None
+
+
 def _hashable_const(v):
     return isinstance(v, (bytes, int, str, float, tuple, frozenset, ClassRef)) and not isinstance(v, bool) or isinstance(v, bool)
 
@@ -205,7 +214,11 @@ def d19_3(ctx):
             lowers[low] = (name, v)
             if bidir:
                 if isinstance(vk, FuncRef) and isinstance(v, ClassRef):
-                    code = ctx.folder.class_attr(v.ci, "code")
+                    attr = _value_key_attr(vk)
+                    if attr != "code" and f"value-key:{attr}" not in probs:
+                        probs.append(f"value-key:{attr}")
+                        probs[-1] = f"reverse-lookup key of {t.name} is `{attr}` of the type, not its CIP `code`: codes do not resolve to the type carrying them"
+                    code = ctx.folder.class_attr(v.ci, attr or "code")
                     rk = code if isinstance(code, int) else None
                     if rk is None:
                         probs.append(f"{name}: reverse key (type code) does not fold")
